@@ -20,6 +20,7 @@ pub mod c16;
 pub mod c17;
 pub mod c18;
 pub mod c19;
+pub mod c20;
 
 pub fn by_id(id: &str) -> Option<Arc<dyn Check>> {
     Some(match id {
@@ -42,6 +43,7 @@ pub fn by_id(id: &str) -> Option<Arc<dyn Check>> {
         "C17" => Arc::new(c17::C17),
         "C18" => Arc::new(c18::C18),
         "C19" => Arc::new(c19::C19),
+        "C20" => Arc::new(c20::C20),
         _ => return None,
     })
 }
